@@ -49,6 +49,7 @@ import (
 	"sort"
 	"strings"
 	"sync"
+	"sync/atomic"
 	"syscall"
 	"time"
 
@@ -79,6 +80,7 @@ type input struct {
 	Backend string `json:"backend"` // args | dials
 	Early   int    `json:"early,omitempty"` // args backend: number of leading ops applied between the initial Value() and Watch()
 	Dec     int    `json:"dec,omitempty"`   // 1: a decoder whose errors wrap sentinel errors (fs.ErrNotExist, ...); 2: a decoder whose values hold a NaN
+	Slow    int    `json:"slow,omitempty"`  // dials backend: Verify() of every version takes this many milliseconds
 	Alt     bool   `json:"alt,omitempty"`   // racing/window: operations flagged A write the same value with different bytes (whitespace-only rewrites)
 	Poll    bool   `json:"poll,omitempty"`  // racing: WithPollInterval(3ms); the history may remove and re-create the parent directory
 	Ops     []op   `json:"ops"`
@@ -87,6 +89,19 @@ type input struct {
 type cfgT struct {
 	A int
 	F float64 // never in the file; the NaN decoder sets it (a value that is not reflect.DeepEqual to itself)
+}
+
+// verifyDelayNs makes cfgT.Verify slow for the current case (dials backend):
+// Dials is then busy for that long with every new version, and the watcher's
+// next report has to wait for it.
+var verifyDelayNs int64
+
+// Verify implements dials.VerifiedConfig.
+func (c cfgT) Verify() error {
+	if d := atomic.LoadInt64(&verifyDelayNs); d > 0 {
+		time.Sleep(time.Duration(d))
+	}
+	return nil
 }
 
 const contentLen = 32
@@ -825,6 +840,7 @@ func setup(in input) *runner {
 	ctx, cancel := context.WithCancel(context.Background())
 	r.cancel = cancel
 	if in.Backend == "dials" {
+		atomic.StoreInt64(&verifyDelayNs, int64(in.Slow)*int64(time.Millisecond))
 		p := dials.Params[cfgT]{
 			OnNewConfig: func(_ context.Context, _, n *cfgT) {
 				r.dmu.Lock()
@@ -975,6 +991,7 @@ func loopGoroutines() int {
 
 // teardown cancels the context and evaluates the release part of the property.
 func (r *runner) teardown() (released bool, why string) {
+	atomic.StoreInt64(&verifyDelayNs, 0)
 	r.cancel()
 	done := make(chan struct{})
 	go func() { r.ws.WG.Wait(); close(done) }()
@@ -1524,6 +1541,18 @@ func gen(r *coqfmt.Rng, n int, tier string) []json.RawMessage {
 			} else if r.Chance(1, 6) {
 				in.Poll = true
 			}
+			if in.Backend == "dials" && !in.Poll && r.Chance(1, 30) {
+				// Dials busy with the previous version (slow Verify) when the next change is reported
+				in.Slow = 300 + 100*r.Intn(4)
+				if len(in.Ops) > 4 {
+					in.Ops = in.Ops[:4]
+				}
+				for j := range in.Ops {
+					if in.Ops[j].K == "rmparent" {
+						in.Ops[j].K = "rename"
+					}
+				}
+			}
 		}
 		b, _ := json.Marshal(in)
 		out = append(out, b)
@@ -1609,6 +1638,9 @@ func corpus() []json.RawMessage {
 	// the dual: the same value in other bytes (blanks only differ): the view must converge; a new version is unspecified
 	add(input{Mode: "w", Backend: "args", Layout: 0, Alt: true, Ops: []op{{K: "rewrite", C: -1, A: true}, {K: "rename", C: 1}, {K: "rename", C: -1, A: true}, {K: "rewrite", C: 2, A: true}, {K: "rewrite", C: -1}}})
 	add(input{Mode: "r", Backend: "dials", Layout: 3, Alt: true, Ops: []op{{K: "rewrite", C: 1, A: true}, {K: "rewrite", C: -1, P: 1}, {K: "rename", C: 2, A: true, P: 2}}})
+	// two changes closer together than the time Dials needs for the first one (slow Verify)
+	add(input{Mode: "r", Backend: "dials", Layout: 0, Slow: 400, Ops: []op{{K: "rename", C: 1}, {K: "rename", C: 2, P: 2}}})
+	add(input{Mode: "r", Backend: "dials", Layout: 3, Slow: 500, Ops: []op{{K: "rewrite", C: 1}, {K: "rewrite", C: 2, P: 1}, {K: "rewrite", C: 3, P: 2}}})
 	// a change between the initial Value() and Watch()
 	add(input{Mode: "q", Backend: "args", Layout: 0, Early: 1, Ops: []op{{K: "rename", C: 3}, {K: "rewrite", C: 4}}})
 	add(input{Mode: "q", Backend: "args", Layout: 3, Early: 2, Ops: []op{{K: "rewrite", C: 3}, {K: "k8s", C: 4}, {K: "rename", C: 5}}})
@@ -1667,7 +1699,7 @@ func main() {
 		Prop: "C17", CoqImport: "Dials.Check.C17Check", CoqRun: "run_cases",
 		Rule: "histories of 1..12 (thorough 24) operations over {in-place rewrite, truncate+write, atomic rename-over, kubernetes ..data/..dir swap (old directory removed or kept), " +
 			"symlink into another (fresh or EARLIER) directory, atomic replacement of the symlink's target, delete (path or target only), directory in place of the file, explicit reload} x content {fresh valid, identical bytes, earlier valid, malformed incl. the empty file, blanks only, a lone BOM, a single NUL} " +
-			"on 4 initial layouts, a third of the cases with a decoder whose errors wrap fs.ErrNotExist / ErrPermission / ENOENT path errors / ..., a sixth with a decoder whose values hold a NaN (not DeepEqual to themselves), some oracle-mode cases writing the same value in other bytes; half of the cases quiescent-step (compared with the model), a quarter window mode (the loop held inside a pass while the next operation is applied), a quarter racing with pauses {0,50us,2ms}, a fifth of them with the parent directory " +
+			"on 4 initial layouts, a third of the cases with a decoder whose errors wrap fs.ErrNotExist / ErrPermission / ENOENT path errors / ..., a sixth with a decoder whose values hold a NaN (not DeepEqual to themselves), some oracle-mode cases writing the same value in other bytes, a few dials-backend racing cases with a Verify() that takes 300-600 ms per version; half of the cases quiescent-step (compared with the model), a quarter window mode (the loop held inside a pass while the next operation is applied), a quarter racing with pauses {0,50us,2ms}, a fifth of them with the parent directory " +
 			"removed and re-created (poll mode or a final explicit reload), some in poll mode; window cases are non-trivial with >=1 hold that took effect and >=2 operation kinds; " +
 			"non-trivial: >=3 distinct operation kinds and >=2 changes of the file's content; distinct = distinct JSON inputs",
 		Gen: gen, Run: run, Corpus: corpus(),
